@@ -49,7 +49,7 @@ def sub_spec(ds, cls, names, n_jobs=None, column_order=None):
     return {'cls': cls, 'features': feats, 'y': ds['y'], 'params': p}
 
 
-def projection(o, X, names):
+def projection(o, X, names, ds=None):
     """per feature: a canonical text of (values_orders[f], transform(X)[f])"""
     out = {}
     try:
@@ -57,17 +57,34 @@ def projection(o, X, names):
     except Exception as e:
         tr = None
         terr = type(e).__name__
+    # a second frame: the qualitative columns exchanged, so that each feature meets values that are known
+    # modalities of another feature (unseen for itself); judged feature by feature
+    swapped = {}
+    qs = [f for f in names if f in QUALI and f in o.features]
+    for f in names:
+        if f in qs:
+            other = QUALI[(QUALI.index(f) + 1) % len(QUALI)]
+            if ds is not None and other in ds['features']:
+                import numpy as np
+                import pandas as pd
+                fr = X.copy(deep=True)
+                fr[f] = pd.Series([np.nan if v is None else v for v in ds['features'][other]['values']], dtype=object)
+                try:
+                    swapped[f] = [('nan' if E.isnan(v) else repr(v)) for v in o.transform(fr)[f]]
+                except Exception as e:
+                    swapped[f] = type(e).__name__
     for f in names:
         if f not in o.features:
             out[f] = 'DROPPED'
             continue
         vo = o.values_orders[f]
         col = [('nan' if E.isnan(v) else repr(v)) for v in tr[f]] if tr is not None else terr
+        col = [col, swapped.get(f)]
         out[f] = json.dumps([[repr(k) for k in vo], [[repr(k), [repr(m) for m in vo.content[k]]] for k in vo], col])
     return out
 
 
-def fit_project(spec, names, schedule=None, force_order=None):
+def fit_project(spec, names, schedule=None, force_order=None, ds=None):
     o, X, y, kw = E.build(spec)
     if force_order is not None:
         # the iteration order is what `features` / `quantitative_features` hold when fit runs
@@ -78,10 +95,10 @@ def fit_project(spec, names, schedule=None, force_order=None):
         if schedule is not None:
             with fakepool.patched(schedule) as fac:
                 o.fit(X, y)
-                proj = projection(o, X, names)
+                proj = projection(o, X, names, ds)
             return proj, fac.instances
         o.fit(X, y)
-        return projection(o, X, names), 0
+        return projection(o, X, names, ds), 0
     except Exception as e:
         return {f: f'EXC:{type(e).__name__}' for f in names}, 0
 
@@ -102,7 +119,7 @@ def run_dataset(seed, schedules, hash_seeds=(), real_pool=False):
         # reference: each feature alone, sequential
         ref = {}
         for f in names:
-            pr, _ = fit_project(sub_spec(ds, cls, [f]), [f])
+            pr, _ = fit_project(sub_spec(ds, cls, [f]), [f], ds=ds)
             ref[f] = code(pr[f])
         runs = []
 
@@ -116,7 +133,7 @@ def run_dataset(seed, schedules, hash_seeds=(), real_pool=False):
             order = pnames + [f for f in names if f not in pnames]
             proj, inst = fit_project(sub_spec(ds, cls, names, n_jobs=w, column_order=order), names,
                                      schedule=[FEATS[i - 1] for i in comp] + list(reversed(QUALI)),
-                                     force_order=order if cls == 'ContinuousDiscretizer' else None)
+                                     force_order=order if cls == 'ContinuousDiscretizer' else None, ds=ds)
             pools_seen += inst
             add('parallel_schedule_differs', proj, perm, comp, w)
         # (a)/(c) subsets, list orders, column orders (sequential)
@@ -126,16 +143,16 @@ def run_dataset(seed, schedules, hash_seeds=(), real_pool=False):
             sub = rng.sample(names, k)
             cols = list(sub)
             rng.shuffle(cols)
-            proj, _ = fit_project(sub_spec(ds, cls, sub, column_order=cols), sub)
+            proj, _ = fit_project(sub_spec(ds, cls, sub, column_order=cols), sub, ds=ds)
             add('subset_or_order_differs', proj)
         # (e) real pools
         if real_pool:
             for w in (2, 3):
-                proj, _ = fit_project(sub_spec(ds, cls, names, n_jobs=w), names)
+                proj, _ = fit_project(sub_spec(ds, cls, names, n_jobs=w), names, ds=ds)
                 add('real_pool_differs', proj, workers=w)
         # (d) other hash seeds, in child interpreters
         for hs in hash_seeds:
-            proj = child_projection(sub_spec(ds, cls, names), names, hs)
+            proj = child_projection(sub_spec(ds, cls, names), names, hs, ds)
             add('hash_seed_differs', proj)
         cases.append({'id': f'par{seed}:{cls}', 'nfeat': len(names), 'ref': [ref[f] for f in names], 'runs': runs,
                       'meta': {'driver': 'parallel.run_dataset', 'args': {'seed': seed}, 'cls': cls, 'fake_pools_created': pools_seen}})
@@ -148,17 +165,17 @@ sys.path.insert(0, {harness!r}); sys.path.insert(0, {repo!r})
 import warnings; warnings.filterwarnings('ignore')
 from acverif.drivers import parallel
 spec = json.loads(sys.stdin.read())
-proj, _ = parallel.fit_project(spec['spec'], spec['names'])
+proj, _ = parallel.fit_project(spec['spec'], spec['names'], ds=spec.get('ds'))
 print('PROJ' + json.dumps(proj))
 '''
 
 
-def child_projection(spec, names, hash_seed):
+def child_projection(spec, names, hash_seed, ds=None):
     from ..core import repo_path
     harness = os.path.dirname(os.path.dirname(os.path.dirname(os.path.abspath(__file__))))
     env = dict(os.environ, PYTHONHASHSEED=str(hash_seed), PYTHONDONTWRITEBYTECODE='1')
     pr = subprocess.run([sys.executable, '-c', CHILD.format(harness=harness, repo=repo_path())],
-                        input=json.dumps({'spec': spec, 'names': names}), capture_output=True, text=True, env=env, timeout=300)
+                        input=json.dumps({'spec': spec, 'names': names, 'ds': ds}), capture_output=True, text=True, env=env, timeout=300)
     for line in pr.stdout.splitlines():
         if line.startswith('PROJ'):
             return json.loads(line[4:])
